@@ -33,9 +33,19 @@ func VerifC12RoundTrip() {
 		return // cannot happen for an honest key; kept so that the check does not depend on it
 	}
 	rt.Assert("ciphertext layout: 4+32 prefix + sealed body", len(ct) >= 36+16)
+	saved := append([]byte{}, ct...)
+	// a failed attempt under another context first (optional), then the real one, then once more: decryption
+	// reads the ciphertext, it does not consume or alter it
+	if rt.Choose("wrongContextFirst", 2) == 1 {
+		_, werr := DecryptWithPrivKey(priv, ctx+"x", ct)
+		rt.Assert("other context rejected", werr != nil)
+	}
 	pt, err := DecryptWithPrivKey(priv, ctx, ct)
 	rt.Assert("decrypt of own ciphertext succeeds", err == nil)
 	rt.Assert("round trip returns the message", rt.BytesEq(pt, msg))
+	rt.Assert("decryption leaves the caller's ciphertext untouched", rt.BytesEq(ct, saved))
+	pt2, err2 := DecryptWithPrivKey(priv, ctx, ct)
+	rt.Assert("the same ciphertext decrypts again to the same message", err2 == nil && rt.BytesEq(pt2, msg))
 	rt.Reach("end")
 }
 
